@@ -66,6 +66,8 @@ theorem eval_for_unfold {fuel env ids e body what pos} (s : State) :
       | .ok v s' => .ok v (restoreVars env (hiddenVars s env ids) s')
       | .err v m p t s' =>
           .err v m p t (restoreVars env (hiddenVars s env ids) (ids.foldl (fun s x => s.remove env x) s'))
+      | .fail (.syn e) s' =>
+          .fail (.syn e) (restoreVars env (hiddenVars s env ids) (ids.foldl (fun s x => s.remove env x) s'))
       | other => other := by
   rw [eval]; rfl
 
@@ -139,6 +141,8 @@ theorem for_stmt_set_order {fuel env ids e body what pos s c s1 xs v}
         | .ok v s' => .ok v (restoreVars env (hiddenVars s env ids) s')
         | .err v m p t s' =>
             .err v m p t (restoreVars env (hiddenVars s env ids) (ids.foldl (fun s x => s.remove env x) s'))
+        | .fail (.syn e) s' =>
+            .fail (.syn e) (restoreVars env (hiddenVars s env ids) (ids.foldl (fun s x => s.remove env x) s'))
         | other => other := by
   obtain ⟨ys, vs, h1, h2, h3, h4, h5⟩ := for_set_order ld (ids := ids) (body := body) (what := what)
     (pos := pos) he hc wf hv
@@ -181,6 +185,8 @@ theorem for_stmt_map_keys_order {fuel env ids e body pos s c s1 kvs v}
         | .ok v s' => .ok v (restoreVars env (hiddenVars s env ids) s')
         | .err v m p t s' =>
             .err v m p t (restoreVars env (hiddenVars s env ids) (ids.foldl (fun s x => s.remove env x) s'))
+        | .fail (.syn e) s' =>
+            .fail (.syn e) (restoreVars env (hiddenVars s env ids) (ids.foldl (fun s x => s.remove env x) s'))
         | other => other := by
   obtain ⟨es, ves, h1, h2, h3, h4, h5⟩ := for_map_keys_order ld (ids := ids) (body := body)
     (pos := pos) he hc wf hv
